@@ -26,7 +26,12 @@ type Job struct {
 	Cancel   bool   `json:"cancel"`    // context cancelled before Render
 	BufSize  int    `json:"buf_size"`  // runtime.DefaultBufferSize for this process (first job decides)
 	FlushErr bool   `json:"flush_err"` // the writer has a Flush() error method that fails
+	Bufio    bool   `json:"bufio"`     // render into the caller's own long-lived *bufio.Writer (8 KB), flushed by the caller afterwards
 }
+
+// the caller's own buffered writer, kept for the life of the process (as a server would keep one per connection)
+var callerSink bytes.Buffer
+var callerBuf = bufio.NewWriterSize(&callerSink, 8192)
 
 type Result struct {
 	T        string   `json:"t"`
@@ -111,11 +116,19 @@ func RenderJob(reg map[string]func(*A) templ.Component, j Job) (res Result) {
 			res.Panic = fmt.Sprint(r)
 		}
 		res.HTML = w.buf.String()
+		if j.Bufio {
+			callerBuf.Flush()
+			res.HTML = callerSink.String()
+			callerSink.Reset()
+		}
 		res.Log = a.Log
 	}()
 	var target io.Writer = w
 	if j.FlushErr {
 		target = flushWriter{w}
+	}
+	if j.Bufio {
+		target = callerBuf
 	}
 	err := f(&a).Render(ctx, target)
 	if err != nil {
